@@ -16,19 +16,22 @@ RULE = ("for n <= N triggers: every phase assignment (before/during/after)^n x e
         "order and outcome (ok/failed) of firing the Deferreds returned by before-triggers [all enumerated completely]; "
         "combined with <= B removal/duplication decisions: remove trigger j before firing, from inside any running trigger "
         "(later, earlier-and-already-run before-trigger, or itself for before-triggers), or between two Deferred firings; "
-        "register trigger i as an identical duplicate (same callable, args, kwargs) of an earlier one. All triggers share one "
+        "register trigger i as an identical duplicate (same callable, args, kwargs) of an earlier one; a running during/after "
+        "trigger registers a new trigger for its own phase or a later phase; fire the event again while waiting. All triggers share one "
         "callable and differ by args or kwargs. non-trivial = distinct (phases, behaviours, removals, firing order) with a "
         "removal, a raising trigger or a Deferred-returning before-trigger")
 BOUNDS = {"quick": "n<=3 with B=2, n=4 with B=1", "thorough": "n<=3 with B=3, n=4 with B=2, n=5 with B=1"}
 ASSUMPTIONS = [
-    "only one firing of the event per execution; triggers are registered before the event is fired (what happens to triggers "
-    "registered while the event is being fired, or on a second firing, is not constrained by the statement)",
+    "triggers are registered before the event is fired, or by a running during/after trigger for its own or a later phase: "
+    "such a trigger is a remaining trigger of this firing and, by registration order, runs after every trigger registered "
+    "for that phase before it. Registration for a phase that has already finished, registration by before-triggers, and what "
+    "a second firing runs are not constrained (after a re-fire only 'at most once' and 'removed stays removed' are judged)",
     "a removal targets only a trigger that has not run yet, or (while before-triggers are running / their Deferreds are "
     "awaited) a before-trigger that already ran; the latter must not disturb anything",
     "nothing else runs on the reactor, so 'after every Deferred has fired' is checked as: no during/after trigger has run "
     "while a before-Deferred is unfired, and all of them have run by the time the last Deferred firing returns",
 ]
-MIN = {"quick": {"evaluations": 380000, "nontrivial": 380000, "outcomes": 14},
+MIN = {"quick": {"evaluations": 480000, "nontrivial": 480000, "outcomes": 17},
        "thorough": {"evaluations": 9300000, "nontrivial": 9300000, "outcomes": 15}}
 
 PHASES = ("before", "during", "after")
@@ -152,6 +155,22 @@ class H:
         c = self.ch.choose(1 + len(cands), "remove-from-inside-%d" % r.i)
         if c:
             self.remove(cands[c - 1], "inside-%s-trigger" % r.phase)
+        # registration from inside a running during/after trigger (deviation): a new trigger for the phase being
+        # fired or for a later phase.  It is a remaining trigger of this firing and, by registration order, comes
+        # after every trigger registered for that phase before it.
+        if r.phase != "before":
+            later = PHASES[PHASES.index(r.phase):]
+            c = self.ch.choose(1 + len(later), "register-from-inside-%d" % r.i)
+            if c:
+                n = Reg()
+                n.i, n.phase, n.alive, n.ran, n.dup_of = len(self.regs), later[c - 1], True, 0, None
+                n.token, n.kind = n.i, "none"
+                self.regs.append(n)
+                self.flags.add("registered-%s-trigger-from-inside-%s-trigger" % (n.phase, r.phase))
+                if n.token % 2:
+                    n.handle = self.reactor.addSystemEventTrigger(n.phase, "custom", self.trig, token=n.token)
+                else:
+                    n.handle = self.reactor.addSystemEventTrigger(n.phase, "custom", self.trig, n.token)
         if r.kind == "raise":
             self.raised = True
             raise Boom("trigger %d" % r.i)
